@@ -159,3 +159,53 @@ Section ScopeInfoState.
       end
     else None.
 End ScopeInfoState.
+
+(* The object db as MemoryDB holds and pickles it: {path: {scope key: ScopeInfo}}; pickling a ScopeInfo
+   goes through __getstate__/__setstate__. Keys are plain strings (pickle keeps them). *)
+Section ObjectDb.
+  Variable isdig : N -> bool.
+  Definition scopes := list (text * (pyval * pyval)).          (* key -> (call_info, per_name) *)
+  Definition objdb := list (text * scopes).                    (* path -> scopes *)
+  Definition saved_scopes := list (text * state).
+  Definition saved_db := list (text * saved_scopes).
+
+  Fixpoint save_scopes (s : scopes) : option saved_scopes :=
+    match s with
+    | [] => Some []
+    | (k, (ci, pn)) :: r =>
+        match getstate isdig ci pn, save_scopes r with
+        | Some st, Some r' => Some ((k, st) :: r')
+        | _, _ => None
+        end
+    end.
+  Fixpoint save_db (d : objdb) : option saved_db :=
+    match d with
+    | [] => Some []
+    | (p, s) :: r =>
+        match save_scopes s, save_db r with
+        | Some s', Some r' => Some ((p, s') :: r')
+        | _, _ => None
+        end
+    end.
+  Fixpoint load_scopes (s : saved_scopes) : option scopes :=
+    match s with
+    | [] => Some []
+    | (k, st) :: r =>
+        match setstate isdig st, load_scopes r with
+        | Some v, Some r' => Some ((k, v) :: r')
+        | _, _ => None
+        end
+    end.
+  Fixpoint load_db (d : saved_db) : option objdb :=
+    match d with
+    | [] => Some []
+    | (p, s) :: r =>
+        match load_scopes s, load_db r with
+        | Some s', Some r' => Some ((p, s') :: r')
+        | _, _ => None
+        end
+    end.
+  Definition wf_scopes (s : scopes) : bool :=
+    forallb (fun kv => wf_py (fst (snd kv)) && wf_py (snd (snd kv))) s.
+  Definition wf_db (d : objdb) : bool := forallb (fun ps => wf_scopes (snd ps)) d.
+End ObjectDb.
